@@ -53,11 +53,11 @@ func runC07(c *ctx, r *Report) error {
 	if !c.quick {
 		n = 60000
 	}
-	r.Rule = fmt.Sprintf("%d random placements of a diagnosed construct: 9 kinds of defect inside ${{ }} (lexer, parser, semantic at the first / an inner / an argument token, with leading spaces) + object / null value evaluated in a template (reported at the `$`) + untrusted input + unexpected key + bad scalar value + bad glob character + mutually exclusive filter keys (reported at the later key; block and two-line flow layout) + needs cycle (reported at its first job; flow layout with decreasing columns), placed in workflow / job / step / container env values (free key names of random length), step name / run / with values, flow and block style, plain / single / double quoted scalars, 0–30 characters of text and 0–3 well-formed placeholders before it in the same scalar, 0–9 comment lines and 0–3 extra jobs above; the generator computes the exact line:column of the offending token / key / value / character from what it wrote, the real linter must report exactly there; non-trivial = distinct generated sources", n)
+	r.Rule = fmt.Sprintf("%d random placements of a diagnosed construct: 9 kinds of defect inside ${{ }} (lexer, parser, semantic at the first / an inner / an argument token, with leading spaces) + object / null value evaluated in a template (reported at the `$`) + untrusted input + unexpected key + bad scalar value + bad glob character + mutually exclusive filter keys (reported at the later key; block and two-line flow layout) + needs cycle (reported at its first job; flow layout with decreasing columns) + runner label reaching runs-on through a matrix row / include entry (reported where it is written), placed in workflow / job / step / container env values (free key names of random length), step name / run / with values, flow and block style, plain / single / double quoted scalars, 0–30 characters of text and 0–3 well-formed placeholders before it in the same scalar, 0–9 comment lines and 0–3 extra jobs above; the generator computes the exact line:column of the offending token / key / value / character from what it wrote, the real linter must report exactly there; non-trivial = distinct generated sources", n)
 	quoteStyles := []string{"", "'", "\""}
 	var mb batch
 	for i := 0; i < n; i++ {
-		kind := rng.Intn(17)
+		kind := rng.Intn(18)
 		var lines []string
 		k := rng.Intn(10)
 		lines = append(lines, "on: push")
@@ -225,6 +225,33 @@ func runC07(c *ctx, r *Report) error {
 			}
 			lines = append(lines[:1], append(ins, lines[1:]...)...)
 			wantMsg = "cannot be used"
+			lines = append(lines, "    steps:", "      - run: echo")
+		} else if kind == 17 {
+			// a runner label that reaches runs-on through the matrix is reported where the label is written: at the row
+			// element or at the value of the include entry (block and flow layout)
+			what = "label-via-matrix"
+			pad := strings.Repeat(" ", 1+rng.Intn(6))
+			bad := "no-such-os" + strings.ToLower(filler)
+			lines = []string{"on: push"}
+			for x := 0; x < k; x++ {
+				lines = append(lines, "# comment")
+			}
+			lines = append(lines, "jobs:", "  target:", "    runs-on: ${{ matrix.os }}", "    strategy:", "      matrix:")
+			switch rng.Intn(4) {
+			case 0: // row element, flow
+				lines = append(lines, "        os: [ubuntu-latest,"+pad+bad+"]")
+				wantLine, wantCol = len(lines), len("        os: [ubuntu-latest,"+pad)+1
+			case 1: // row element, block
+				lines = append(lines, "        os:", "          - ubuntu-latest", "          -"+pad+bad)
+				wantLine, wantCol = len(lines), len("          -"+pad)+1
+			case 2: // include entry, block
+				lines = append(lines, "        os: [ubuntu-latest]", "        include:", "          - os:"+pad+bad, "            extra: 1")
+				wantLine, wantCol = len(lines)-1, len("          - os:"+pad)+1
+			default: // include entry, flow
+				lines = append(lines, "        os: [ubuntu-latest]", "        include: [{os:"+pad+bad+"}]")
+				wantLine, wantCol = len(lines), len("        include: [{os:"+pad)+1
+			}
+			wantMsg = "label \"" + bad + "\" is unknown"
 			lines = append(lines, "    steps:", "      - run: echo")
 		} else if kind == 16 {
 			// a needs cycle is reported at the job of the cycle that is written first, also when the jobs form a flow
